@@ -43,6 +43,8 @@ def state_family(dim, n):
     ks = list(kets.values())
     a, b = ks[2] / np.linalg.norm(ks[2]), ks[3] / np.linalg.norm(ks[3])
     fam.append(("mix-1/4-3/4", 0.25 * np.outer(a, a.conj()) + 0.75 * np.outer(b, b.conj()), None))
+    c, e2 = ks[3] / np.linalg.norm(ks[3]), ks[-1] / np.linalg.norm(ks[-1])
+    fam.append(("mix-complex", 0.6 * np.outer(c, c.conj()) + 0.4 * np.outer(e2, e2.conj()), None))  # complex off-diagonal elements
     fam.append(("max-mixed", np.eye(N, dtype=complex) / N, None))
     d = np.diag(np.arange(1, N + 1, dtype=float))
     fam.append(("diag", (d / np.trace(d)).astype(complex), None))
@@ -142,13 +144,18 @@ def check_obs(dim, eig, n, si, hv):
                 out.append((f"C20:bitstring-probabilities:{tag}", f"state {name}, one_state {one}: {dict(gotbp)} vs {expbp}"))
         # fidelity with every pure member of the family, expectation of a non-Hermitian operator
         for nm2, rho2, ket2 in state_family(dim, n):
-            if ket2 is None:
-                continue
-            other = QutipState(qutip.Qobj(ket2.reshape(-1, 1), dims=[[dim] * n, [1] * n]), eigenstates=eig)
-            f = Fidelity(other).apply(**kw)
-            exp_f = float(np.real(ket2.conj() @ rho @ ket2))
-            if abs(complex(f) - exp_f) > 1e-9:
-                out.append((f"C20:fidelity:{tag}", f"state {name} vs {nm2}: {f} vs {exp_f}"))
+            # reference given as a ket (pure members) and as a density matrix (every member): overlap = Tr[rho_ref rho]
+            refs = [("dm", QutipState(qutip.Qobj(rho2, dims=dims), eigenstates=eig))]
+            if ket2 is not None:
+                refs.append(("ket", QutipState(qutip.Qobj(ket2.reshape(-1, 1), dims=[[dim] * n, [1] * n]), eigenstates=eig)))
+            exp_f = float(np.real(np.trace(rho2 @ rho)))
+            for rk, other in refs:
+                f = Fidelity(other).apply(**kw)
+                if abs(complex(f) - exp_f) > 1e-9:
+                    out.append((f"C20:fidelity:{tag}:reference-{rk}", f"state {name} vs {nm2}: {f} vs Tr[rho_ref rho] = {exp_f}"))
+                g = other.overlap(st)
+                if abs(complex(g) - exp_f) > 1e-9:
+                    out.append((f"C20:overlap:{tag}:reference-{rk}", f"{nm2}.overlap({name}) = {g} vs {exp_f}"))
         A = hermitian(dim, n, 1) * (0.3 + 0.7j) + np.triu(np.ones((dim**n, dim**n))) * 0.1
         ex = Expectation(QutipOperator(qutip.Qobj(A, dims=dims), eigenstates=eig)).apply(**kw)
         exp_ex = complex(np.trace(rho @ A))
